@@ -270,6 +270,21 @@ def step (st : St) (line : String) : St × String :=
     | some k => (st, hexOpt ((Alg.ofOrd k).bind algStr))
     | none => (st, "badop")
   | ["echo"] => (st, "echo")
+  -- ECDSA framing: provider o|g, alg ordinal, key bits, integers as hex numerals
+  | ["ecframe", p, a, bits, r, s] =>
+    match Alg.ofOrd (a.toNat?.getD 99), bits.toNat?, hexNat r, hexNat s with
+    | some alg, some b, some rv, some sv =>
+      (st, match Jwt.EcFrame.frame (if p = "g" then .gnutls else .openssl) alg b rv sv with
+           | some o => hexOctets o
+           | none => "fail")
+    | _, _, _, _ => (st, "badop")
+  | ["ecunframe", p, a, bits, sig] =>
+    match Alg.ofOrd (a.toNat?.getD 99), bits.toNat?, unhexB sig with
+    | some alg, some b, some sg =>
+      (st, match Jwt.EcFrame.unframe (if p = "g" then .gnutls else .openssl) alg b (sg.map UInt8.toNat) with
+           | some (rv, sv) => s!"{natHex rv} {natHex sv}"
+           | none => "reject")
+    | _, _, _ => (st, "badop")
   | ["clistatus", n] => (st, toString (Jwt.Cli.verifyStatus (n.toNat?.getD 0)))
   | ["clock", t] => ({ st with now := t.toInt?.getD 0 }, "ok")
   -- oracle tables
